@@ -23,6 +23,9 @@ fn len(r: &mut Rng, max: usize) -> usize {
 /// Integer-valued (or dyadic) fragments. With `precond` the C03 precondition
 /// `penalty_width[k] <= width[k+1]` is enforced by construction.
 pub fn finite_frags(r: &mut Rng, scale: Scale, max_len: usize, precond: bool) -> Vec<Frag> {
+    if r.chance(1, 10) {
+        return regular_frags(r, scale, max_len);
+    }
     let n = len(r, max_len);
     let zero_w = r.range(0, 8); // probability x/16 of a zero-width fragment
     let pen_rate = r.range(0, 8);
@@ -74,7 +77,50 @@ pub fn finite_frags(r: &mut Rng, scale: Scale, max_len: usize, precond: bool) ->
     v
 }
 
+/// Perfectly regular input (a hex dump, a row of equal words, unspaced CJK):
+/// all fragments have the same width and the same whitespace, no penalties;
+/// the count is often an exact multiple of what fits on a line.
+pub fn regular_frags(r: &mut Rng, scale: Scale, max_len: usize) -> Vec<Frag> {
+    let unit = if scale == Scale::Dyadic { 0.5 } else { 1.0 };
+    let lo = if r.chance(1, 12) { 0 } else { 1 };
+    let w = r.range(lo, 8) as f64 * unit;
+    let ws = *r.pick(&[0.0, 1.0, 1.0, 1.0, 2.0]) * unit;
+    let per_line = r.range(1, 8);
+    let n = match r.below(4) {
+        0 => r.range(1, max_len.max(1)),
+        _ => (per_line * r.range(1, 12)).min(max_len.max(1)),
+    };
+    let mut v: Vec<Frag> = (0..n).map(|_| Frag { w, ws, pw: 0.0 }).collect();
+    if r.coin() {
+        if let Some(l) = v.last_mut() {
+            l.ws = 0.0;
+        }
+    }
+    v
+}
+
+fn is_regular(frags: &[Frag]) -> bool {
+    frags.len() >= 2 && frags.iter().all(|f| f.w == frags[0].w && f.pw == 0.0) && frags[..frags.len() - 1].iter().all(|f| f.ws == frags[0].ws)
+}
+
 pub fn line_widths(r: &mut Rng, scale: Scale, max_lists: usize, frags: &[Frag]) -> Vec<f64> {
+    if is_regular(frags) && max_lists >= 1 && r.chance(3, 4) {
+        // lines that are filled exactly by k fragments (or miss / exceed that by one unit), all lines alike
+        let unit = if scale == Scale::Dyadic { 0.5 } else { 1.0 };
+        let (w, ws) = (frags[0].w, frags[0].ws);
+        let mut ks: Vec<usize> = (1..=8).filter(|k| frags.len() % k == 0).collect();
+        if ks.is_empty() || r.chance(1, 4) {
+            ks = (1..=8).collect();
+        }
+        let k = *r.pick(&ks) as f64;
+        let exact = k * w + (k - 1.0) * ws;
+        let lw = match r.below(6) {
+            0 => (exact - unit).max(0.0),
+            1 => exact + unit,
+            _ => exact,
+        };
+        return if max_lists >= 2 && r.chance(1, 3) { vec![lw, lw] } else { vec![lw] };
+    }
     let total: f64 = frags.iter().map(|f| f.w + f.ws).sum();
     let n = r.below(max_lists + 1);
     let mut v = Vec::new();
